@@ -416,7 +416,7 @@ func gateMain(args []string) int {
 			if pause == "" {
 				pause = "stage.rec.walked"
 			}
-			pre = []string{"s1", "s2", "zz"}
+			pre = []string{"s1", "s2", "zz", "s1/x"}
 		}
 		g, err := startGateServer(*bin, work, cs[0].Sources, cs[0].Keys, pause, pre)
 		if err != nil {
